@@ -32,7 +32,8 @@ CONSTANTS MaxHist, MaxCb,
           Steps,         \* notification steps N (percent) a Progress object may be given
           SetArgs,       \* arguments of Progress.set
           NewTotals,     \* totals passed to set_message (-1 = keep); empty = no set_message calls
-          UnregArgs      \* handles passed to unregister (<= 0 are refused, > MaxCb were never issued)
+          UnregArgs,     \* handles passed to unregister (<= 0 are refused, > MaxCb were never issued)
+          OneShots       \* kinds of callbacks registered: {FALSE} plain only, {FALSE, TRUE} also self-unregistering ones
 \* cfg files hold no negative numbers: the argument sets with -1 are named here and substituted (<-)
 UnregAll == (0 - 1)..(MaxCb + 1)
 KeepOr3 == {0 - 1, 3}
@@ -55,15 +56,20 @@ Rec(op, oid, x, y, f, err, ret, emits, alts, msg, notified, o, amb) ==
     [op |-> op, oid |-> oid, x |-> x, y |-> y, f |-> f, err |-> err, ret |-> ret, emits |-> emits, alts |-> alts,
      msg |-> msg, cbs |-> notified, i |-> o.i, total |-> o.total, amb |-> amb]
 
-Without(s, h) == SelectSeq(s, LAMBDA e : e # h)
-Has(s, h) == \E k \in 1..Len(s) : s[k] = h
+\* the table: registration order; once = the callback unregisters itself when it is notified (a one-shot listener)
+Entry(h, once) == [h |-> h, once |-> once]
+Without(s, h) == SelectSeq(s, LAMBDA e : e.h # h)
+Has(s, h) == \E k \in 1..Len(s) : s[k].h = h
+Handles(s) == [k \in 1..Len(s) |-> s[k].h]
+\* an emission is delivered to the callbacks registered when it starts; the one-shot ones are gone afterwards
+AfterEmit(s, emits) == IF emits # <<>> THEN SelectSeq(s, LAMBDA e : ~e.once) ELSE s
 
 \* ---- the callback table ------------------------------------------------------
-Register ==
+Register(once) ==
     /\ Room /\ counter < MaxCb
     /\ counter' = counter + 1
-    /\ cbs' = Append(cbs, counter + 1)
-    /\ hist' = Append(hist, Rec("register", 0, 0, 0, FALSE, "", counter + 1, <<>>, {<<>>}, 0, <<>>, Dead, FALSE))
+    /\ cbs' = Append(cbs, Entry(counter + 1, once))
+    /\ hist' = Append(hist, Rec("register", 0, 0, 0, once, "", counter + 1, <<>>, {<<>>}, 0, <<>>, Dead, FALSE))
     /\ UNCHANGED <<objs, recent>>
 
 RegisterBad ==
@@ -92,27 +98,29 @@ Enter(oid, total, n) ==
         LET o == [i |-> 0, total |-> total, n |-> n, msg |-> oid, live |-> u.err = "", bad |-> FALSE] IN
         /\ objs' = IF u.err = "" THEN [objs EXCEPT ![oid] = o] ELSE objs
         /\ recent' = IF u.err = "" THEN u.recent ELSE 0 - 1         \* i = 0 resets the marker before the division
-        /\ hist' = Append(hist, Rec("enter", oid, total, n, FALSE, u.err, 0 - 1, u.emits, {x.emits : x \in us}, oid, cbs, o, Cardinality(us) > 1))
-    /\ UNCHANGED <<counter, cbs>>
+        /\ hist' = Append(hist, Rec("enter", oid, total, n, FALSE, u.err, 0 - 1, u.emits, {x.emits : x \in us}, oid, Handles(cbs), o, Cardinality(us) > 1))
+        /\ cbs' = AfterEmit(cbs, u.emits)
+    /\ UNCHANGED counter
 
 Call(oid, op, x, y, f, rs, msg) ==
     \E r \in rs :
         /\ objs' = [objs EXCEPT ![oid] = [i |-> r.o.i, total |-> r.o.total, n |-> r.o.n, msg |-> msg, live |-> TRUE,
                                           bad |-> (r.u.err # "" /\ op = "inc")]]
         /\ recent' = r.u.recent
-        /\ hist' = Append(hist, Rec(op, oid, x, y, f, r.u.err, 0 - 1, r.u.emits, Alts(rs), msg, cbs, r.o, Cardinality(rs) > 1))
+        /\ hist' = Append(hist, Rec(op, oid, x, y, f, r.u.err, 0 - 1, r.u.emits, Alts(rs), msg, Handles(cbs), r.o, Cardinality(rs) > 1))
+        /\ cbs' = AfterEmit(cbs, r.u.emits)
 
 Usable(oid) == Room /\ objs[oid].live /\ ~objs[oid].bad
 
 Increment(oid, step, force) ==
     /\ Usable(oid)
     /\ Call(oid, "inc", step, 0, force, IncrementOutcomes(recent, Obj(objs[oid]), step, force), objs[oid].msg)
-    /\ UNCHANGED <<counter, cbs>>
+    /\ UNCHANGED counter
 
 Set(oid, i) ==
     /\ Usable(oid)
     /\ Call(oid, "set", i, 0, FALSE, SetOutcomes(recent, Obj(objs[oid]), i), objs[oid].msg)
-    /\ UNCHANGED <<counter, cbs>>
+    /\ UNCHANGED counter
 
 \* the new message token alternates so that a stale message is visible
 SetMessage(oid, seti, newtotal, force) ==
@@ -120,7 +128,7 @@ SetMessage(oid, seti, newtotal, force) ==
     /\ (newtotal >= 0 => newtotal >= (IF seti THEN 0 ELSE objs[oid].i) /\ newtotal > 0)
     /\ Call(oid, "msg", IF seti THEN 0 ELSE 0 - 1, newtotal, force,
             SetMessageOutcomes(recent, Obj(objs[oid]), seti, newtotal, force), 3 + (Len(hist) % 2))
-    /\ UNCHANGED <<counter, cbs>>
+    /\ UNCHANGED counter
 
 Exit(oid) ==
     /\ Room /\ objs[oid].live /\ (oid = 1 => ~objs[2].live)
@@ -128,11 +136,12 @@ Exit(oid) ==
        \E r \in rs :
         /\ objs' = [objs EXCEPT ![oid] = Dead]
         /\ recent' = r.u.recent
-        /\ hist' = Append(hist, Rec("exit", oid, 0, 0, FALSE, r.u.err, 0 - 1, r.u.emits, Alts(rs), objs[oid].msg, cbs, r.o, Cardinality(rs) > 1))
-    /\ UNCHANGED <<counter, cbs>>
+        /\ hist' = Append(hist, Rec("exit", oid, 0, 0, FALSE, r.u.err, 0 - 1, r.u.emits, Alts(rs), objs[oid].msg, Handles(cbs), r.o, Cardinality(rs) > 1))
+        /\ cbs' = AfterEmit(cbs, r.u.emits)
+    /\ UNCHANGED counter
 
 Next ==
-    \/ Register
+    \/ \E once \in OneShots : Register(once)
     \/ RegisterBad
     \/ \E h \in UnregArgs : Unregister(h, FALSE)
     \/ Unregister(1, TRUE)
@@ -147,14 +156,16 @@ Spec == Init /\ [][Next]_vars
 Last == hist[Len(hist)]
 \* handles are issued in increasing order and never reused; the table holds issued handles only, each once
 HandlesUnique ==
-    /\ \A k \in 1..Len(cbs) : cbs[k] \in 1..counter
-    /\ \A j, k \in 1..Len(cbs) : j < k => cbs[j] < cbs[k]
+    /\ \A k \in 1..Len(cbs) : cbs[k].h \in 1..counter
+    /\ \A j, k \in 1..Len(cbs) : j < k => cbs[j].h < cbs[k].h
 \* every emission of a well-used object is a fraction in the unit interval and carries a message
 DeliveredInUnit ==
     hist # <<>> => \A k \in 1..Len(Last.emits) : Last.emits[k] \in 0..1000 /\ Last.msg # 0
 \* a call that emits notifies exactly the handles registered at that moment (no handle twice, none missing)
 NotifiesRegistered ==
-    (hist # <<>> /\ Last.emits # <<>>) => Last.cbs = cbs
+    [][(hist' # hist /\ hist'[Len(hist')].emits # <<>>) =>
+        /\ hist'[Len(hist')].cbs = Handles(cbs)
+        /\ \A k \in 1..Len(cbs) : cbs[k].once => ~Has(cbs', cbs[k].h)]_vars
 \* refusals change nothing that a callback could observe
 RefusalsAreSilent ==
     (hist # <<>> /\ Last.err # "") => Last.emits = <<>>
